@@ -16,6 +16,7 @@ import (
 	"math/rand"
 	"os"
 	"sort"
+	"strconv"
 	"strings"
 	"sync"
 
@@ -161,8 +162,18 @@ func report(r *vf.Run, leg, via string, idx int, q *request, ps []problem, ob ob
 		if errStr != "" {
 			attrs["error"] = errStr
 		}
-		r.Violation(p.kind, attrs, q.witness(leg, idx, t, errStr))
+		viol(r, p.kind, attrs, q.witness(leg, idx, t, errStr))
 	}
+}
+
+// viol reports a violation and counts it by kind and by whether it is the change == destination case
+func viol(r *vf.Run, kind string, attrs map[string]string, witness interface{}) {
+	tag := ""
+	if attrs["change_eq_dest"] == "true" || attrs["cause"] == "duplicate-output" {
+		tag = ":change-equals-destination"
+	}
+	r.Count("violations."+kind+tag, 1)
+	r.Violation(kind, attrs, witness)
 }
 
 // noteSuccess records the evidence counters of a successful construction
@@ -317,7 +328,7 @@ func runPure(r *vf.Run, l *local, leg string, idx int, q *request) {
 		txn, _, err = transaction.Create(p, auxs, q.headTime)
 	})
 	if panicked {
-		r.Violation("panic", map[string]string{"leg": leg, "via": "transaction.Create", "frame": frame, "msg": msg, "recipe": q.recipe}, q.witness(leg, idx, nil, msg))
+		viol(r, "panic", map[string]string{"leg": leg, "via": "transaction.Create", "frame": frame, "msg": msg, "recipe": q.recipe}, q.witness(leg, idx, nil, msg))
 		return
 	}
 	if err != nil {
@@ -325,7 +336,7 @@ func runPure(r *vf.Run, l *local, leg string, idx int, q *request) {
 		l.count(leg + ".fail." + class)
 		l.distinct[fmt.Sprintf("%s|fail|%s|%s|%s|%v", leg, class, q.recipe, modeKey(q), q.valid)] = struct{}{}
 		if !user {
-			r.Violation("non-user-level-error", map[string]string{"leg": leg, "via": "transaction.Create", "error": err.Error(), "recipe": q.recipe, "mode": modeKey(q), "change_eq_dest": fmt.Sprint(predicted)}, q.witness(leg, idx, nil, err.Error()))
+			viol(r, "non-user-level-error", map[string]string{"leg": leg, "via": "transaction.Create", "error": err.Error(), "recipe": q.recipe, "mode": modeKey(q), "change_eq_dest": fmt.Sprint(predicted)}, q.witness(leg, idx, nil, err.Error()))
 		}
 		if q.valid {
 			report(r, leg, "transaction.Create", idx, q, checkFailure(q, class, burnFactor()), observed{}, nil, err.Error())
@@ -336,7 +347,7 @@ func runPure(r *vf.Run, l *local, leg string, idx int, q *request) {
 		return
 	}
 	if txn == nil {
-		r.Violation("nil-result", map[string]string{"leg": leg, "via": "transaction.Create"}, q.witness(leg, idx, nil, ""))
+		viol(r, "nil-result", map[string]string{"leg": leg, "via": "transaction.Create"}, q.witness(leg, idx, nil, ""))
 		return
 	}
 	if !q.valid {
@@ -422,7 +433,7 @@ func main() {
 	r := vf.Start("C12", "exploration")
 
 	// pure leg
-	nPure := r.Pick(20000, 1000000)
+	nPure := envInt("C12_PURE", r.Pick(20000, 1000000)) // the env overrides are for development only
 	const chunk = 500
 	nChunks := (nPure + chunk - 1) / chunk
 	vf.Parallel(nChunks, 16, func(c int) {
@@ -441,8 +452,10 @@ func main() {
 	}
 
 	// node leg
-	nNode := r.Pick(304, 10000)
-	nodeLeg(r, nNode)
+	nNode := envInt("C12_NODE", r.Pick(304, 4000))
+	if nNode > 0 {
+		nodeLeg(r, nNode)
+	}
 
 	// samples: the directed cases as the code answered them
 	for i, q := range directedCases() {
@@ -517,6 +530,15 @@ func sortedKeys(m map[string]int) []string {
 func jsonString(v interface{}) string {
 	b, _ := json.Marshal(v)
 	return string(b)
+}
+
+func envInt(name string, def int) int {
+	if v := os.Getenv(name); v != "" {
+		if n, err := strconv.Atoi(v); err == nil {
+			return n
+		}
+	}
+	return def
 }
 
 func fatal(format string, a ...interface{}) {
